@@ -34,6 +34,8 @@ THEOREMS = [
          "the final statistics exists and is <= t[j] (given admissibility of all columns)", strength="full"),
     dict(name="Snow.C06.run_ice_iff_recorded", clause="the same under the hypotheses of run_admissible_partial (inherits "
          "its side condition)", strength="partial"),
+    dict(name="Snow.C06.shelf_coeff_nonneg", clause="the shelf coefficients handed to the step (clamped draws) are "
+         ">= 0 for every draw of the normals (premise of convexity)", strength="full"),
     dict(name="Snow.C06.side_condition_needed", clause="the side condition is not derivable: a warmed vial with tiny "
          "sigma leaves sigma > 0 in exact arithmetic", strength="boundary-witness"),
     dict(name="Snow.C06.nonvacuous", clause="the stable range is inhabited (default solution, K=20, dt=2)",
@@ -108,10 +110,11 @@ def stable(case, impl, ph):
     cmin = min(ph["cp_l"], cp1)
     L = ph["lam"] * (1 - ph["w_s"])
     gamma = (1 - ph["w_s"]) * ph["lam"] / ph["cp_l"]
+    ksh = fu.spec_kshelf(case, impl)   # configured coefficients (clamped at 0), not what the run used
     Hs = np.array([len(impl["nbrs"][i]) * impl["kInt"] * A + impl["ext"][i] * impl["kExt"] * A
-                   + impl["kShelf"][i] * A for i in range(n)])
+                   + ksh[i] * A for i in range(n)])
     coeff = (impl["kInt"] * A >= 0 and all(e * impl["kExt"] * A >= 0 for e in impl["ext"])
-             and all(k * A >= 0 for k in impl["kShelf"]))
+             and bool(np.all(ksh * A >= 0)))
     cfl = float(np.max(2 * dt * Hs) / (ph["m"] * cmin))
     xc = float(np.max((dt * Hs * (hi - lo)) ** 2) / (ph["m"] ** 2 * cmin * ph["D"] * L))
     rng_ = (ph["T_eq_l"] - lo) / gamma
@@ -149,6 +152,10 @@ def monitor(case, impl):
         a = np.asarray(impl[name])
         if np.any(np.isinf(a)):
             v("finite", -1, int(np.where(np.isinf(a))[0][0]), f"{name} infinite")
+    Hsh = np.asarray(impl["Hshelf"])
+    if (Hsh < 0).any():
+        i = int(np.where(Hsh < 0)[0][0])
+        v("coefficients_nonneg", -1, i, f"shelf heat-transfer coefficient used by the run is {Hsh[i]!r} < 0")
     bad = ~((Xs >= 0) & (Xs < 1))
     if bad.any():
         k, i = np.argwhere(bad)[0]
@@ -190,7 +197,7 @@ def monitor(case, impl):
     A = ph["A"]
     q = (impl["kInt"] * A * (XT @ W.T - XT * deg)
          + np.asarray(impl["ext"]) * impl["kExt"] * A * (Tsh[:, None] - XT)
-         + np.asarray(impl["kShelf"]) * A * (Tsh[:, None] - XT))
+         + fu.spec_kshelf(case, impl) * A * (Tsh[:, None] - XT))
     warmed = ice & (q > 0)
     side_bad = warmed & ~(q * dt <= Xs * ph["m"] * ph["lam"] * (1 - ph["w_s"]))
     return {"stable": ok, "margins": marg, "violations": viol,
@@ -212,7 +219,7 @@ def predicates(case, impl):
         return out  # outside the stated operating range: nothing is claimed
     nz = case["N_vials"][2]
     for clause, k, i, detail in mon["violations"][:3]:
-        cls = f"{'pallet' if nz > 1 else 'shelf'},{case.get('initIce', 'indirect')}"
+        cls = f"{'pallet' if nz > 1 else 'shelf'},{case.get('initIce', 'indirect').lower()}"
         out.append(Failure(clause=clause, key=f"{clause}|Snowflake.run|{cls}",
                            detail=f"vial {i} column {k}: {detail} (stability margins {mon['margins']})"))
     return out
@@ -222,7 +229,9 @@ def classify(case, impl):
     _STASH.clear()
     _STASH[_key(case)] = impl
     tags = [f"kind={case.get('kind')}", "pallet" if case["N_vials"][2] > 1 else "shelf",
-            f"initIce={case.get('initIce', 'indirect')}"]
+            f"initIce={case.get('initIce', 'indirect').lower()}"]
+    if case["k"].get("s_sigma_rel", 0) >= 0.5:
+        tags.append("s_sigma_rel>=0.5")
     if impl.get("raise"):
         return tags + [f"raise={impl['raise']}"]
     mon = impl["monitor"]
